@@ -62,7 +62,8 @@ MUTANTS: Dict[str, List[M]] = {
         ("Type arm imports outside any handler", "_typehints.py", "            try:\n                val = import_object(val)\n            except (ImportError, AttributeError) as ex:\n                raise_unexpected_value(f\"Expected an import path corresponding to a {typehint}: {ex}\", path, ex)", "            val = import_object(val)", "C03.R6"),
         ("get_content no longer converts decode errors", "_util.py", "        except UnicodeDecodeError as ex:\n            raise PathError", "        except UnicodeEncodeError as ex:\n            raise PathError", "C03.R6"),
         ("Callable arm no longer converts AttributeError", "_typehints.py", "            except (ImportError, AttributeError, ArgumentError) as ex:\n                raise_unexpected_value(f\"Type {typehint} expects a function", "            except (ImportError, ArgumentError) as ex:\n                raise_unexpected_value(f\"Type {typehint} expects a function", "C03.R6"),
-        ("yaml_load no longer converts constructor ValueError", "_loaders_dumpers.py", "    except ValueError as ex:  # raised by the constructors", "    except KeyError as ex:  # raised by the constructors", "C03.R5"),
+        ("yaml_load converts ValueError only", "_loaders_dumpers.py", "    except (ValueError, AttributeError) as ex:  # raised by the constructors", "    except ValueError as ex:  # raised by the constructors", "C03.R5"),
+        ("yaml_load no longer converts constructor ValueError", "_loaders_dumpers.py", "    except (ValueError, AttributeError) as ex:  # raised by the constructors", "    except KeyError as ex:  # raised by the constructors", "C03.R5"),
         ("subcommand parser does not inherit exit_on_error", "_actions.py", "        parser.exit_on_error = self.parent_parser.exit_on_error\n", "", "C03.R3"),
         ("ActionTypeHint no longer converts ValueError", "_typehints.py", "            except (TypeError, ValueError) as ex:\n                if self._is_valid_string(val):", "            except TypeError as ex:\n                if self._is_valid_string(val):", "C03.R4"),
     ],
